@@ -1,4 +1,4 @@
-\* exhaustive, property version (fee first, victims without dependants), small universe, capacity 2
+\* careless variant: the lock-height test sits behind the capacity test, an over-capacity pool admits a tx locked to a future height; must violate AdmitMatureUnlocked
 SPECIFICATION MCSpecRec
 CONSTANTS
   Atoms <- AtomsSmall
@@ -14,17 +14,17 @@ CONSTANTS
   MaxTxWeight = 226
   MaxBlockWeight = 250
   MineWeight = 120
-  FeeFirst = FALSE
-  TimedAlways = TRUE
+  FeeFirst = TRUE
+  TimedAlways = FALSE
   StemRecheck = "always"
   FeeOnRemainder = TRUE
   EvictMode = "nodeps"
   ReconcileMature = TRUE
   ShortReorg = FALSE
   MaxBlocks = 2
-  MaxSteps = 4
+  MaxSteps = 3
   MaxBlockTxs = 1
   MaxReorgDepth = 0
   SimProfile = "mixed"
 VIEW View
-INVARIANTS EmitNoUnderpaid
+INVARIANTS EmitAdmitMatureUnlocked
